@@ -83,6 +83,13 @@ def translate():
     app = [n for n in ast.walk(fn) if isinstance(n, ast.Call) and _ns(n.func) == "self._history[current_key].append"]
     need(len(app) == 1, fn, "one append")
     fresh_commit = _copies(app[0].args[0]) and "value=self._current[current_key]" in _ns(fn)
+    # a rejected strict commit changes nothing: the validation (and its raise) precedes the loop that appends
+    cb = strip_doc(fn.body)
+    i_val = next((i for i, x in enumerate(cb) if isinstance(x, ast.If) and _ns(x.test) == "strict"), None)
+    i_app = next((i for i, x in enumerate(cb) if isinstance(x, ast.For) and any(n is app[0] for n in ast.walk(x))), None)
+    raises = [n for n in ast.walk(fn) if isinstance(n, ast.Raise)]
+    strict_validated_first = (i_val is not None and i_app is not None and i_val < i_app
+                              and len(raises) >= 1 and all(any(r is n for n in ast.walk(cb[i_val])) for r in raises))
     # to_dict
     fn = get_function(path, "StateManager.to_dict")
     r = returns(fn)[0]
@@ -136,6 +143,7 @@ Definition sample_returns_get_current : bool := {b(sample_ok)}.
 Definition results_returns_compute_results : bool := {b(res_ok)}.
 Definition posterior_built_from_flat_history : bool := {b(post_ok)}.
 Definition ensure_copy_copies_ndarrays : bool := true.
+Definition rejected_commit_raises_before_any_append : bool := {b(strict_validated_first)}.
 """
     write_if_changed(COQ / "Gen" / "Alias.v", text)
 
@@ -432,6 +440,43 @@ def nocopy_probe(run):
                      ops=[f"{method}_current(logl, buf, copy=False)", "commit", "buf[...] = next", "..."])
 
 
+def rejected_commit_probe(run, rng):
+    """commit_current_to_history(strict=True) with a required key missing must raise and leave the history exactly as it was;
+    after the missing value is supplied, one commit appends exactly one batch per set key."""
+    from tempest.state_manager import StateManager
+    for missing in ("logl", "beta"):
+        sm = StateManager(2)
+        for it in range(3):
+            n = 4
+            vals = {"u": np.full((n, 2), float(it)), "x": np.full((n, 2), float(it) + 0.5), "logl": np.arange(n, dtype=float) + it,
+                    "beta": 0.1 * it, "logz": -float(it), "iter": it}
+            sm.update_current({k: v for k, v in vals.items() if k != missing})
+            sm.set_current(missing, None)
+            before = {k: len(v) for k, v in sm._history.items()}
+            raised = False
+            try:
+                sm.commit_current_to_history(strict=True)
+            except ValueError:
+                raised = True
+            after = {k: len(v) for k, v in sm._history.items()}
+            run.case(key=("rejected-commit", missing, it), nontrivial=True)
+            ops = [f"update_current(all but {missing})", f"set_current({missing}, None)", "commit_current_to_history(strict=True)"]
+            if not raised:
+                run.fail("strict-commit-not-rejected", f"strict commit with {missing}=None did not raise", ops=ops, iteration=it)
+                break
+            if after != before:
+                changed = {k: (before[k], after[k]) for k in before if before[k] != after[k]}
+                run.fail("history-not-append-only", f"a REJECTED strict commit (missing {missing}) appended batches: {changed}", ops=ops, iteration=it)
+                break
+            sm.set_current(missing, vals[missing])
+            sm.commit_current_to_history(strict=True)
+            lens = {k: len(v) for k, v in sm._history.items() if k in vals}
+            if any(v != it + 1 for v in lens.values()):
+                run.fail("history-not-append-only", f"after iteration {it} the history lengths are {lens} (one batch per iteration expected)",
+                         ops=ops + [f"set_current({missing}, value)", "commit_current_to_history(strict=True)"], iteration=it)
+                break
+
+
 def main(tier, seed):
     run = Run(PID, tier, seed)
     run.rule = ("random interleavings (6..40 ops) of set/get/get-all/get-history/flat-history/commit/to_dict/import/"
@@ -455,6 +500,7 @@ def main(tier, seed):
         sweep(run, tier, rng)
         sampler_level(run, tier, rng)
         nocopy_probe(run)
+        rejected_commit_probe(run, rng)
     except Exception:
         import traceback
         run.broken.append(("harness-exception", traceback.format_exc()[-1500:]))
